@@ -205,7 +205,7 @@ class C02(common.Spec):
 def gen_cases(run):
     rng = run.rng
     cases = []
-    n = 700 if run.tier == 'quick' else 6000
+    n = 700 if run.tier == 'quick' else 18000
     for _ in range(n):
         sender = rng.choice(['input', 'probe', 'cblock'])
         values = [rng.choice(POOL) for _ in range(rng.choice([1, 2, 3, 5, 8, 12, 20]))]
